@@ -745,7 +745,7 @@ pub fn run_layered(layer: u8, spec: SpecId, pre: &r::World, target: &r::Address,
             evm.transact().map_err(|e| format!("{e:?}"))
         }};
     }
-    match layer % 6 {
+    match layer % 8 {
         0 => go!(ModelDB::new(pre.clone())),
         1 => go!(state_db(pre, spec, false)),
         2 => go!(CacheDB::new(ModelDB::new(pre.clone()))),
@@ -760,7 +760,30 @@ pub fn run_layered(layer: u8, spec: SpecId, pre: &r::World, target: &r::Address,
             go!(db)
         }
         4 => go!(WrapDatabaseRef(ModelDB::new(pre.clone()))),
-        _ => go!(state_db(pre, spec, true)),
+        5 => go!(state_db(pre, spec, true)),
+        6 => {
+            // the storage was put into the cache for an address the underlying data does not know at all
+            // (only possible for a target that is nothing but storage)
+            let mut base = pre.clone();
+            let t = base.get(target).cloned();
+            let only_storage = t.as_ref().map(|a| a.code.is_empty() && a.nonce == 0 && a.balance.is_zero() && !a.storage.is_empty()).unwrap_or(false);
+            let st = if only_storage { base.remove(target).map(|a| a.storage).unwrap_or_default() } else { base.get_mut(target).map(|a| std::mem::take(&mut a.storage)).unwrap_or_default() };
+            let mut db = CacheDB::new(ModelDB::new(base));
+            for (k, v) in st {
+                db.insert_account_storage(ra(target), ru(k), ru(v)).unwrap();
+            }
+            go!(db)
+        }
+        _ => {
+            // the whole storage was replaced through the cache
+            let mut base = pre.clone();
+            let st = base.get_mut(target).map(|a| std::mem::take(&mut a.storage)).unwrap_or_default();
+            let mut db = CacheDB::new(ModelDB::new(base));
+            if !st.is_empty() {
+                db.replace_account_storage(ra(target), st.into_iter().map(|(k, v)| (ru(k), ru(v))).collect()).unwrap();
+            }
+            go!(db)
+        }
     }
 }
 
@@ -781,7 +804,7 @@ pub fn c21_case(c: &CollisionCase) -> CaseResult {
     }
     let before = pre.get(&target).cloned();
     let collision = has_code || has_nonce || has_storage;
-    let layer_name = ["ModelDB", "State", "CacheDB", "CacheDB+insert_account_storage", "WrapDatabaseRef", "State+bundle"][c.layer as usize % 6];
+    let layer_name = ["ModelDB", "State", "CacheDB", "CacheDB+insert_account_storage", "WrapDatabaseRef", "State+bundle", "CacheDB+insert_account_storage(unknown address)", "CacheDB+replace_account_storage"][c.layer as usize % 8];
     let env = make_env(spec, &block, &tx);
     let rs = run_layered(c.layer, spec, &pre, &target, env).map_err(|e| vec![Failure::new("C21|harness|rejected", e)])?;
     let mut post = pre.clone();
@@ -824,7 +847,7 @@ pub fn c21(ctx: &mut Ctx) {
                 if kind != 0 && spec < 4 {
                     continue;
                 }
-                for layer in 0..6u8 {
+                for layer in 0..8u8 {
                     for value in [0u8, 1] {
                         cases.push(CollisionCase { spec, target, kind, layer, value });
                     }
@@ -834,14 +857,14 @@ pub fn c21(ctx: &mut Ctx) {
     }
     ctx.run_exhaustive(
         "collision-grid",
-        "exhaustive product: target pre-state {code?, nonce?, storage?, funded?} x {create tx, CREATE, CREATE2} x database layer {ModelDB, State, State+bundle, CacheDB, CacheDB with the storage inserted into the cache, WrapDatabaseRef} x endowment {0,1} x specs {FRONTIER, SPURIOUS_DRAGON, PETERSBURG, BERLIN, LONDON, SHANGHAI, CANCUN, PRAGUE}; target addresses predicted by own RLP/keccak; oracle: collision <=> code or nonce or storage; on collision the target is untouched, CREATE* pushes 0 / the create tx halts with all gas, creator nonce bumped; non-trivial = storage-only collision",
+        "exhaustive product: target pre-state {code?, nonce?, storage?, funded?} x {create tx, CREATE, CREATE2} x database layer {ModelDB, State, State+bundle, CacheDB, CacheDB with the storage inserted into the cache (for a known and for an unknown address), CacheDB after replace_account_storage, WrapDatabaseRef} x endowment {0,1} x specs {FRONTIER, SPURIOUS_DRAGON, PETERSBURG, BERLIN, LONDON, SHANGHAI, CANCUN, PRAGUE}; target addresses predicted by own RLP/keccak; oracle: collision <=> code or nonce or storage; on collision the target is untouched, CREATE* pushes 0 / the create tx halts with all gas, creator nonce bumped; non-trivial = storage-only collision",
         cases,
         c21_case,
     );
     let mut eof_cases = vec![];
     for target in 0..16u8 {
         for kind in 0..2u8 {
-            for layer in 0..6u8 {
+            for layer in 0..8u8 {
                 for value in [0u8, 1] {
                     eof_cases.push(crate::eofcheck::EofCollisionCase { target, kind, layer, value });
                 }
